@@ -12,7 +12,7 @@ from pathlib import Path
 from vt import core, sat
 
 PROP = 'C28'
-RULE = ('clause sets (<=2 clauses over vars 1..3, incl. empty) x single requests (EQ/LT/GT x k in 0..|S|+1 x every non-empty S of {1,2,3}), '
+RULE = ('clause sets (<=2 clauses over vars 1..3, incl. empty; plus every single clause of 2-3 literals that repeats a variable) x single requests (EQ/LT/GT x k in 0..|S|+1 x every non-empty S of {1,2,3}), '
         'plus request pairs on clause sets of size <=1 (quick: empty clause set); all 8 assignments each; plus update_file for every '
         'previous solution over supports 1..3. Non-trivial = both accepted and rejected assignments exist.')
 ASSUMPTIONS = ['OPB semantics: sum of coefficient*literal-value compared with the right-hand side; every constraint ends with ;',
@@ -51,6 +51,14 @@ def work(tier):
         w.append((c, []))
         for r in sr:
             w.append((c, [r]))
+    # clauses that name a variable more than once (a repeated literal, or a literal and its complement): legal CNF, same meaning
+    lits = [1, -1, 2, -2, 3, -3]
+    odd = [list(c) for r in (2, 3) for c in itertools.product(lits, repeat=r) if len({abs(l) for l in c}) < r]
+    full = [r for r in sr if r[2] == VARS]
+    for c in odd:
+        w.append(([c], []))
+        for r in full:
+            w.append(([c], [r]))
     pair_sets = cs[:1] if tier == 'quick' else cs[:27]
     for c in pair_sets:
         for r1, r2 in itertools.product(sr, repeat=2):
